@@ -216,6 +216,30 @@ pub fn gen(rng: &mut Rng, n: usize, thorough: bool, emit: &mut dyn FnMut(String)
                 emit(format!("{}\tstr\t{}", kind, enc_str(&format!("{}{}", pre, j))));
             }
         }
+        // every unit word with ONE letter replaced by a non-ASCII character whose Unicode case mapping is
+        // an ASCII letter (KELVIN SIGN -> k, LONG S -> S, dotless i -> I, dotted capital I -> i + U+0307), in the
+        // word as written and upper-cased: not a unit (the comparison is ASCII case-insensitive); a
+        // `to_lowercase()`/`to_uppercase()` table lookup accepts them (seeded changes C20_r2_1, C20_r5_2)
+        for (u, _) in units.iter().map(|u| (*u, ())) {
+            for word in [u.to_owned(), u.to_uppercase()] {
+                let cs: Vec<char> = word.chars().collect();
+                for (i, c) in cs.iter().enumerate() {
+                    let subs: &[char] = match c.to_ascii_lowercase() {
+                        'k' => &['\u{212a}'],
+                        's' => &['\u{17f}'],
+                        'i' => &['\u{131}', '\u{130}'],
+                        _ => &[],
+                    };
+                    for sub in subs {
+                        let mut w = cs.clone();
+                        w[i] = *sub;
+                        let w: String = w.into_iter().collect();
+                        emit(format!("{}\tstr\t{}", kind, enc_str(&format!("2 {}", w))));
+                        emit(format!("{}\tstr\t{}", kind, enc_str(&format!("2{}", w))));
+                    }
+                }
+            }
+        }
         for s in ["", " ", "kb", "seconds", "-", "+", ".", "-0", "+0", "0", "00", "0 b", "0 seconds", "0x10", "0b", "0xb", "1e3", "1_000"] {
             emit(format!("{}\tstr\t{}", kind, enc_str(s)));
         }
